@@ -4,18 +4,20 @@ reports a violation, revert. Appends to /tmp/mut/stage2.jsonl."""
 import json, subprocess, os, sys, time
 STEP=int(sys.argv[1]) if len(sys.argv)>1 else 5
 OFF=int(sys.argv[2]) if len(sys.argv)>2 else 0
-MAP=[('src/tyme/solar.rs',['C01','C12','C06','C13','C14','C15','C20','C02','C08','C16']),
+MAP=[('src/tyme/solar.rs',['C01','C12','C13','C14','C15','C06','C20','C02','C16','C08']),
      ('src/tyme/lunar.rs',['C03','C02','C07','C13','C14','C17','C10','C09','C20','C18']),
-     ('src/tyme/util.rs',['C05','C03','C06','C04','C02']),
-     ('src/tyme/sixtycycle.rs',['C08','C09','C11','C07','C17','C13','C19','C16']),
+     ('src/tyme/util.rs',['C04','C03','C05','C06','C02']),
+     ('src/tyme/sixtycycle.rs',['C19','C07','C13','C17','C16','C08','C11','C09']),
      ('src/tyme/eightchar/mod.rs',['C09','C16','C19','C11']),
      ('src/tyme/eightchar/provider.rs',['C16','C09']),
      ('src/tyme/jd.rs',['C01','C12','C07','C05']),
      ('src/tyme/culture/mod.rs',['C11','C18','C19','C17','C15']),
      ('src/tyme/culture/',['C19','C17','C18','C11','C15']),
      ('src/tyme/holiday.rs',['C20']),('src/tyme/festival.rs',['C20']),
-     ('src/tyme/enums.rs',['C11','C19','C16']),('src/tyme/mod.rs',['C11','C19'])]
+     ('src/tyme/enums.rs',['C11','C19','C16']),('src/tyme/mod.rs',['C19','C11'])]
 muts=[m for m in json.load(open('/tmp/mut/mutants_tested.json')) if m['tests']=='survived']
+FILT=sys.argv[3].split(',') if len(sys.argv)>3 else None
+if FILT: muts=[m for m in muts if any(m['file'].endswith(f) for f in FILT)]
 sample=muts[OFF::STEP]
 done=set()
 if os.path.exists('/tmp/mut/stage2.jsonl'):
